@@ -104,7 +104,7 @@ Lemma dim_dom_axis_facts (G : Prop) d sh : (G -> conversions_meet_spec) -> dim_d
 Proof.
   intros HC H. unfold dim_dom in H.
   repeat (apply andb_true_iff in H; destruct H as [H ?]).
-  apply Z.leb_le in H. rename H into Hsh1. rename H1 into Hsh52. rename H2 into Hsha. rename H0 into Hd.
+  apply Z.leb_le in H. rename H into Hsh1. rename H2 into Hsh52. rename H3 into Hsha. rename H0 into Hd. clear H1.
   apply Z.leb_le in Hsha, Hsh52.
   destruct d as [dt off u|ticks u|n|n].
   - (* sampled *)
